@@ -37,4 +37,115 @@ theorem walkPos_th (s : State) (u t : Nat) (x : Thr) (n : Nat) (h : t ≠ u) : (
 theorem addDone_th (s : State) (u t : Nat) (x : Thr) (h : t ≠ u) : (addDone s u x).1.th t = s.th t := by
   unfold addDone; split <;> simp [setTh_th_ne, h]
 
+@[simp] theorem tick_th' (s : State) (t : Nat) : (tick s).th t = s.th t := rfl
+
+/-- closes `(tick (f …).1).th t = s.th t` for the four state-returning helpers -/
+macro "pair_frame" : tactic => `(tactic| first
+  | exact walkPos_th _ _ _ _ _ ‹_ ≠ _›
+  | exact walkRet_th _ _ _ _ _ _ ‹_ ≠ _›
+  | exact replTest_th _ _ _ _ _ ‹_ ≠ _›
+  | exact addDone_th _ _ _ _ ‹_ ≠ _›)
+
+theorem stepApi_th (c : Cfg) (s s' : State) (u t : Nat) (x : Thr) (L : Label) (o : Out) (htu : t ≠ u)
+    (h : stepApi c s u x L = some (s', o)) : s'.th t = s.th t := by
+  cases L <;> simp only [stepApi] at h <;> (try cases h)
+  all_goals (repeat' split at h)
+  all_goals (try cases h)
+  all_goals first
+    | rfl
+    | (simp [setTh_th_ne, htu]; done)
+    | pair_frame
+
+theorem stepAdd_th (c : Cfg) (s s' : State) (u t : Nat) (x : Thr) (L : Label) (o : Out) (htu : t ≠ u)
+    (h : stepAdd c s u x L = some (s', o)) : s'.th t = s.th t := by
+  cases L <;> simp only [stepAdd, crash] at h <;> (try cases h)
+  all_goals (repeat' split at h)
+  all_goals (try cases h)
+  all_goals first
+    | rfl
+    | (simp [setTh_th_ne, unlink, htu]; done)
+    | pair_frame
+
+theorem stepWalk_th (c : Cfg) (s s' : State) (u t : Nat) (x : Thr) (L : Label) (o : Out) (htu : t ≠ u)
+    (h : stepWalk c s u x L = some (s', o)) : s'.th t = s.th t := by
+  cases L <;> simp only [stepWalk, crash] at h <;> (try cases h)
+  all_goals (repeat' split at h)
+  all_goals (try cases h)
+  all_goals first
+    | rfl
+    | (simp [setTh_th_ne, htu]; done)
+    | pair_frame
+
+theorem stepRepl_th (c : Cfg) (s s' : State) (u t : Nat) (x : Thr) (L : Label) (o : Out) (htu : t ≠ u)
+    (h : stepRepl c s u x L = some (s', o)) : s'.th t = s.th t := by
+  cases L <;> simp only [stepRepl, crash] at h <;> (try cases h)
+  all_goals (repeat' split at h)
+  all_goals (try cases h)
+  all_goals first
+    | rfl
+    | (simp [setTh_th_ne, htu]; done)
+    | pair_frame
+
+theorem stepGc_th (c : Cfg) (s s' : State) (u t : Nat) (x : Thr) (L : Label) (o : Out) (htu : t ≠ u)
+    (h : stepGc c s u x L = some (s', o)) : s'.th t = s.th t := by
+  cases L <;> simp only [stepGc, crash] at h <;> (try cases h)
+  all_goals (repeat' split at h)
+  all_goals (try cases h)
+  all_goals first
+    | rfl
+    | (simp [setTh_th_ne, htu]; done)
+    | pair_frame
+
+theorem stepDel_th (c : Cfg) (s s' : State) (u t : Nat) (x : Thr) (L : Label) (o : Out) (htu : t ≠ u)
+    (h : stepDel c s u x L = some (s', o)) : s'.th t = s.th t := by
+  cases L <;> simp only [stepDel, crash] at h <;> (try cases h)
+  all_goals (repeat' split at h)
+  all_goals (try cases h)
+  all_goals first
+    | rfl
+    | (simp [setTh_th_ne, htu]; done)
+    | pair_frame
+
+theorem stepRz_th (c : Cfg) (s s' : State) (u t : Nat) (x : Thr) (L : Label) (o : Out) (htu : t ≠ u)
+    (hsp : ∀ len, L ≠ .spawn t len) (hjn : L ≠ .join t)
+    (h : stepRz c s u x L = some (s', o)) : s'.th t = s.th t := by
+  cases L <;> simp only [stepRz] at h <;> (try cases h)
+  case spawn v len =>
+    have hv : t ≠ v := fun e => hsp len (by rw [e])
+    split at h <;> cases h
+    simp [setTh_th_ne, htu, hv]
+  case join v =>
+    have hv : t ≠ v := fun e => hjn (by rw [e])
+    split at h <;> cases h
+    simp [setTh_th_ne, htu, hv]
+  all_goals (repeat' split at h)
+  all_goals (try cases h)
+  all_goals first
+    | rfl
+    | (simp [setTh_th_ne, htu]; done)
+
+/-- **frame**: a step of another thread `u ≠ t` leaves `t`'s record unchanged, unless it is `spawn t _` / `join t`
+(the resize owner `u` starts / joins the partition helper `t`) -/
+theorem frame (c : Cfg) (s s' : State) (u t : Nat) (L : Label) (o : Out) (htu : t ≠ u)
+    (hsp : ∀ len, L ≠ .spawn t len) (hjn : L ≠ .join t)
+    (h : step c s u L = some (s', o)) : s'.th t = s.th t := by
+  unfold step at h
+  split at h
+  · cases h
+  · dsimp only at h
+    split at h <;> first
+      | exact stepApi_th c s s' u t _ _ o htu h
+      | exact stepAdd_th c s s' u t _ _ o htu h
+      | exact stepWalk_th c s s' u t _ _ o htu h
+      | exact stepRepl_th c s s' u t _ _ o htu h
+      | exact stepGc_th c s s' u t _ _ o htu h
+      | exact stepDel_th c s s' u t _ _ o htu h
+      | exact stepRz_th c s s' u t _ _ o htu hsp hjn h
+
+/-- … hence the local projection -/
+theorem frame_proj (c : Cfg) (s s' : State) (u t : Nat) (L : Label) (o o0 : Out) (htu : t ≠ u)
+    (hsp : ∀ len, L ≠ .spawn t len) (hjn : L ≠ .join t)
+    (h : step c s u L = some (s', o)) : proj s' t o0 = proj s t o0 := by
+  unfold proj; rw [frame c s s' u t L o htu hsp hjn h]
+
 end UrcuVerif.Src.LfhtL
